@@ -182,6 +182,10 @@ class KwReverse(ast.NodeTransformer):
         self.generic_visit(node)
         named = [k for k in node.keywords if k.arg is not None]
         star = [k for k in node.keywords if k.arg is None]
+        fn = node.func.attr if isinstance(node.func, ast.Attribute) else (node.func.id if isinstance(node.func, ast.Name) else "")
+        # callees for which the ORDER of keywords is observable (column / key order of the result) are left alone
+        if fn in ("assign", "agg", "aggregate", "DataFrame", "Series", "dict", "OrderedDict", "update", "namedtuple", "rename"):
+            return node
         if len(named) > 1 and not star:
             node.keywords = named[::-1]
         return node
